@@ -29,6 +29,7 @@ type config struct {
 	ChangeAt uint32
 	// forks may also start below the change; every branch then applies the same change at the same height
 	ForkBelowChange bool
+	AfterCertPlus   bool
 	After           []uint64
 	Batch           int
 	// forks may only start from a block of height <= MaxForkHeight (-1: anywhere)
@@ -159,6 +160,9 @@ func (s *search) add(parent, gen int, mhg uint32, slot int) (bool, bool) {
 	}
 	if s.cfg.ChangeAt != 0 && h.H == s.cfg.ChangeAt {
 		pc, cert, vs := specOf(s.cfg.After, s.cfg.PrecommitMax)
+		if s.cfg.AfterCertPlus {
+			cert++ // same validators and vote thresholds, only the certificate threshold moves: still a parameter update
+		}
 		st, err = s.env.SetParams(st, pc, cert, vs)
 		if err != nil {
 			panic(err)
@@ -393,6 +397,8 @@ func configs(thorough bool) []config {
 		config{Name: "n4-byz3-reweight3334-forkbelow-12slots", Weights: eq4, Byz: []int{3}, Slots: 12, MaxLeaves: 2, MaxSkips: 1, ChangeAt: 2, After: []uint64{3, 3, 3, 4}, ForkBelowChange: true},
 		config{Name: "w3334-byz1-reweight1111-forkbelow-12slots", Weights: []uint64{3, 3, 3, 4}, Byz: []int{1}, Slots: 12, MaxLeaves: 2, MaxSkips: 1, ChangeAt: 2, After: eq4, ForkBelowChange: true},
 		config{Name: "n4-byz3-join5-forkbelow-12slots", Weights: eq4, Byz: []int{3}, Slots: 12, MaxLeaves: 2, MaxSkips: 1, ChangeAt: 2, After: eq5, ForkBelowChange: true},
+		config{Name: "n4-byz3-reweight2111-forkbelow-13slots", Weights: eq4, Byz: []int{3}, Slots: 13, MaxLeaves: 2, MaxSkips: 1, ChangeAt: 3, After: []uint64{2, 1, 1, 1}, ForkBelowChange: true},
+		config{Name: "n4-byz3-certonly-forkbelow-13slots", Weights: eq4, Byz: []int{3}, Slots: 13, MaxLeaves: 2, MaxSkips: 1, ChangeAt: 4, After: eq4, AfterCertPlus: true, ForkBelowChange: true},
 		config{Name: "n4-byz0-reweight4333-forkbelow-12slots", Weights: eq4, Byz: []int{0}, Slots: 12, MaxLeaves: 2, MaxSkips: 1, ChangeAt: 1, After: []uint64{4, 3, 3, 3}, ForkBelowChange: true},
 	)
 	if thorough {
